@@ -170,7 +170,7 @@ UNITS = [UnitSpec(
     plugins=[StdVector(), OpaqueString(), OpaqueJson()], model_headers=['vec_model.h', 'misc_model.h'],
     opaque_records={'tbox::main::Context': 'struct v_Context', 'tbox::util::Variables': 'struct v_Variables'},
     emit=['tbox::main::Module::initialize', 'tbox::main::Module::start', 'tbox::main::Module::stop', 'tbox::main::Module::cleanup'],
-    not_covered=['Module::add/addAs/~Module/toJson (lambda, Json)', 'Main() sequencing in run_in_frontend/run_in_backend'],
+    not_covered=['Module::add/addAs/toJson (lambda, Json)', 'Main() sequencing in run_in_frontend/run_in_backend'],
     targets=[
         Target('initialize', H('  struct main_Module *m; struct v_json *js; Mod_initialize(m, js);'), enforce='Mod_initialize', replace=CHILD + ['Mod_cleanup'],
                clause='initialize: own hook first, children in order, balance invariant on every exit (also when a required child fails), optional failures tolerated'),
